@@ -54,7 +54,7 @@ def cases(tier, seed):
                     k += 1
                     combos = list(itertools.product(b["schemes"], b["periods"])) if tier == "thorough" else [(b["schemes"][k % 3], 1 + (k // 3) % 2)]
                     for sch, P in combos:
-                        out.append(dict(nsteps=n, layout=lay, comp=comp, table=ti, scheme=sch, period=P))
+                        out.append(dict(nsteps=n, layout=lay, comp=comp, table=ti, scheme=sch, period=P, storage=("i2" if k % 4 == 0 else "f4" if k % 4 == 2 else "f8")))
                     if comp == "split" and ti in (0, 3):
                         # the same differential with frames, release times and the output period OFF the step grid
                         out.append(dict(nsteps=n, layout=lay, comp=comp, table=ti, scheme=b["schemes"][k % 3], period=1, offgrid=True))
@@ -95,7 +95,8 @@ def run_dir(case, rev):
     off = 200 if case.get("offgrid") else 0  # seconds later in simulation order (the first frame stays, so the window is covered)
     first = min(case["layout"])
     for fi, g in enumerate(cal):
-        W.write_file(d / f"f_{fi:02d}.nc", [dict(t=S0 + sgn * (s * DT + (off if s != first else 0)), **field(s, 1 if rev else -1)) for s in g])
+        W.write_file(d / f"f_{fi:02d}.nc", [dict(t=S0 + sgn * (s * DT + (off if s != first else 0)), **field(s, 1 if rev else -1)) for s in g],
+                     storage=case.get("storage", "f8"), scale=dict(u=(2.0 ** -12, 0.0), v=(2.0 ** -12, 0.0)))
     tab = TABLES[case["table"]]
     rows = []
     pos = [(3.3, 3.6), (4.7, 2.4), (2.6, 5.2), (5.4, 4.1)]
